@@ -147,7 +147,8 @@ class Importer:
         if last_page_bb is None:
             if self.last_measure_number is None:
                 self.last_measure_number = 0
-            self.last_bounding_box = BoundingBoxMeasures(token.bounding_box, self.last_measure_number,
+            # the page box grows with every later box of the page: it must not share the token's own box
+            self.last_bounding_box = BoundingBoxMeasures(copy(token.bounding_box), self.last_measure_number,
                                                          self.last_measure_number)
             document.page_bounding_boxes[page_number] = self.last_bounding_box
         else:
